@@ -96,6 +96,9 @@ def check_tree(root, conc, tokens):
             if not isinstance(kids, list):
                 f.append(("inner_node_value_not_a_list", f"{name!r}: {kids!r}"))
                 continue
+            if any(not hasattr(k, "name") for k in kids):
+                f.append(("child_of_inner_node_is_not_a_tree_element", f"{name!r}: {kids!r}"[:300]))
+                continue
             sig = tuple(k.name for k in kids)
             if sig not in prods[name]:
                 kind = "childless_node_without_empty_alternative" if not sig else "node_is_not_a_user_production"
